@@ -60,6 +60,22 @@ class Ctx:
         self.serial = next(_SERIAL)
 
 
+class FalsyCtx(list):
+    """the same, but FALSY (an empty list subclass): a context is whatever prepare_context returns"""
+    def __init__(self, tag, name):
+        super().__init__()
+        self.tag = tag
+        self.name = name
+        self.serial = next(_SERIAL)
+
+
+FALSY = set()         # request ids whose handlers hand out falsy contexts
+
+
+def make_ctx(tag, name):
+    return (FalsyCtx if rid_of(name) in FALSY else Ctx)(tag, name)
+
+
 RESULT_KINDS = ["ok", "bare404", "bare403", "bare500", "empty404", "404hdr", "404body"]
 
 
@@ -100,7 +116,7 @@ class RecTftp(TS.TftpRequestHandler):
         if h is None:
             return None
         LOGS[rid].append(("prepare", self.index, filename))
-        return Ctx(h[0], filename)
+        return make_ctx(h[0], filename)
 
     def can_handle(self, filename, context):
         rid, h = _spec(self.index, filename)
@@ -127,7 +143,7 @@ class RecHttp(HS.HttpRequestHandler):
         if h is None:
             return None
         LOGS[rid].append(("prepare", self.index, uri))
-        return Ctx(h[0], uri)
+        return make_ctx(h[0], uri)
 
     def can_handle(self, uri, context):
         rid, h = _spec(self.index, uri)
@@ -160,7 +176,7 @@ class RecHttp(HS.HttpRequestHandler):
 
 
 def _ctx(c):
-    if isinstance(c, Ctx):
+    if isinstance(c, (Ctx, FalsyCtx)):
         rid = rid_of(c.name)
         if c.serial <= _FLOOR.get(rid, 0):           # made by prepare_context for an EARLIER request
             return ("<context object of an earlier request> " + c.tag, c.name)
@@ -193,6 +209,44 @@ def _tmpdir():
         with open(os.path.join(_tmp, "http.txt"), "w") as f:
             f.write(HTTP_TPL)
     return _tmp
+
+
+class SockProxy:
+    """stands in for TftpServer._socket: everything goes to the real socket; recvmsg can be told to return, for the
+    NEXT datagram, ancillary data as an operating system may legally deliver it (none at all, unrelated messages
+    first, only unrelated ones, a second IPV6_PKTINFO)"""
+    def __init__(self, real):
+        self._real = real
+        self.script = []
+
+    def recvmsg(self, bufsize, ancbufsize=0, flags=0):
+        data, anc, fl, addr = self._real.recvmsg(bufsize, ancbufsize, flags)
+        if self.script:
+            mode = self.script.pop(0)
+            other = (socket.SOL_SOCKET, 0x7e57, b"\x00" * 8)
+            hop = (socket.IPPROTO_IPV6, getattr(socket, "IPV6_HOPLIMIT", 52), b"\x40\x00\x00\x00")
+            if mode == "none":
+                anc, fl = [], fl | getattr(socket, "MSG_CTRUNC", 8)
+            elif mode == "other-first":
+                anc = [other, hop] + list(anc)
+            elif mode == "other-only":
+                anc = [other, hop]
+            elif mode == "two":
+                anc = list(anc) + [(socket.IPPROTO_IPV6, socket.IPV6_PKTINFO, SECOND_RAW + b"\x01\x00\x00\x00")]
+        return data, anc, fl, addr
+
+    def __getattr__(self, name):
+        return getattr(self._real, name)
+
+
+SECOND_RAW = socket.inet_pton(socket.AF_INET6, "fe80::5")      # what a second packet-info message claims
+ANC_MODES = ["none", "other-first", "other-only", "two"]
+
+
+def wrap_socket(s):
+    if not isinstance(s._socket, SockProxy):
+        s._socket = SockProxy(s._socket)       # TftpServer._run reads self._socket on every iteration
+    return s._socket
 
 
 _PLATFORM_PKTINFO = None
@@ -279,6 +333,14 @@ def _patience():
 def tftp_request(c):
     """-> (reply, client port, bound sockname)"""
     srv, sockname = tftp_server(c["bind"], c["pktinfo"], c["proto"] == 2, c.get("restart"))
+    if c.get("anc_mode"):
+        # a request on ANOTHER local address first, then the observed one with unusual ancillary data
+        other = 4 if c["fam"] == 6 else 6
+        if c["bind"] not in (V6, V4M, "::ffff:0.0.0.0"):
+            tftp_request(dict(c, anc_mode=None, fam=other, name=b"warmup-no-script", mail=False, restart=None))
+        proxy = wrap_socket(srv)
+        time.sleep(0.12)                        # the receive loop is now blocked in the proxy's recvmsg
+        proxy.script = [c["anc_mode"]]
     fam = socket.AF_INET if c["fam"] == 4 else socket.AF_INET6
     dst = V4 if c["fam"] == 4 else V6
     s = socket.socket(fam, socket.SOCK_DGRAM)
@@ -368,7 +430,7 @@ class C10(Check):
                 yield bind, fam
 
     def mk(self, proto, bind, fam, pktinfo, handlers, stem=b"", tail=b"", mail=False, method="GET", headers=None,
-           restart=None, debug=False, repeat=None):
+           restart=None, debug=False, repeat=None, anc_mode=None, falsy_ctx=False):
         rid = next(self._seq)
         token = b"id%dx" % rid
         if proto in (1, 3):
@@ -381,7 +443,7 @@ class C10(Check):
             name = b"/t/http.txt"
         hd = [("Host", "verif"), ("X-Verif-Id", str(rid))] + list(headers or [])
         return {"proto": proto, "bind": bind, "fam": fam, "pktinfo": pktinfo, "rid": rid, "name": name,
-                "mail": mail, "method": method, "headers": hd if proto in (1, 3) else [], "restart": restart, "debug": debug, "repeat": repeat,
+                "mail": mail, "method": method, "headers": hd if proto in (1, 3) else [], "restart": restart, "debug": debug, "repeat": repeat, "anc_mode": anc_mode, "falsy_ctx": falsy_ctx,
                 "handlers": [("h%d-%d" % (i, rid),) + ((bool(a[0]), a[1]) if isinstance(a, tuple) else (bool(a), "ok"))
                              for i, a in enumerate(handlers)]}
 
@@ -407,6 +469,22 @@ class C10(Check):
         for v in some:
             yield self.mk(0, "::", 4, False, v, stem=b"dbg/", debug=True)
             yield self.mk(1, V6, 6, True, v, tail=b"/dbg", method="POST", debug=True)
+        # ancillary data as an operating system may legally deliver it (fault injection on recvmsg), after a request that
+        # arrived on another local address: none at all (MSG_CTRUNC), unrelated messages first / only, two packet infos
+        for mode in ANC_MODES:
+            for bind, fam in (("::", 6), ("::", 4), ("0::0", 6), (V6, 6)):
+                for v in ((True,), (False, True)):
+                    yield self.mk(0, bind, fam, True, v, stem=b"anc/", anc_mode=mode)
+            yield self.mk(2, "::", 6, True, (True,), anc_mode=mode)
+        # contexts that are falsy objects (a context is whatever prepare_context returns)
+        for v in some + [(True, True)]:
+            yield self.mk(0, "::", 6, True, v, stem=b"fc/", falsy_ctx=True)
+            yield self.mk(1, "::", 4, True, v, tail=b"/fc", falsy_ctx=True)
+            yield self.mk(0, "::", 4, True, v, stem=b"fc/", falsy_ctx=True, repeat=2, debug=True)
+        # names that are falsy / sentinel-like as Python values
+        for nm in (b"0", b"None", b"False", b"-1", b"%00", b"\x7f"):
+            yield self.mk(0, "::", 6, True, (False, True), stem=nm + b"/", tail=b"/" + nm)
+            yield self.mk(1, "::", 6, True, (False, True), tail=b"/" + nm + b"?" + nm + b"=" + nm, headers=[("X-Zero", "0"), ("X-Empty", "")])
         # the same file name / URI requested again on the same server: full dispatch and a fresh context every time
         for v in some + [(True, True), (False, True, False)]:
             for rep in (2, 3):
@@ -486,6 +564,8 @@ class C10(Check):
     def impl(self, c):
         SCRIPTS[c["rid"]] = c["handlers"]
         LOGS[c["rid"]] = []
+        if c.get("falsy_ctx"):
+            FALSY.add(c["rid"])
         loggers = [logging.getLogger("vinegar.http.server"), logging.getLogger("vinegar.tftp.server")]
         old = [lg.level for lg in loggers]
         if c.get("debug"):                       # the logging level is configuration: the property holds at every level
@@ -627,9 +707,14 @@ class C10(Check):
         handlers = [[t.encode(), a, visible(k, t.encode()) if c["proto"] == 1 else t.encode()] for t, a, k in c["handlers"]]
         if c["proto"] in (2, 3):
             handlers = [[b"", True, b""]]
+        real_anc = [True, raw + b"\x01\x00\x00\x00"]
+        unrelated = [[False, b"\x00" * 8], [False, b"\x40\x00\x00\x00"]]
+        anc = {None: [real_anc], "none": [], "other-first": unrelated + [real_anc], "other-only": unrelated,
+               "two": [real_anc, [True, SECOND_RAW + b"\x01\x00\x00\x00"]]}[c.get("anc_mode")]
         return sx([c["proto"], False, bool(c["pktinfo"]), sockname,
-                   [[True, raw + b"\x01\x00\x00\x00"]],
-                   [[raw, socket.inet_ntop(socket.AF_INET6, raw).encode()]],
+                   anc,
+                   [[raw, socket.inet_ntop(socket.AF_INET6, raw).encode()],
+                    [SECOND_RAW, socket.inet_ntop(socket.AF_INET6, SECOND_RAW).encode()]],
                    client, local, c["method"].encode(),
                    [[k.encode("latin-1"), v.encode("latin-1")] for k, v in c["headers"]],
                    c["name"], bool(c["mail"]), handlers, self.canon(o)])
@@ -647,6 +732,7 @@ class C10(Check):
                 "mail_mode": c["mail"], "method": c["method"], "headers": c["headers"],
                 "server_loggers_at_DEBUG": bool(c.get("debug")), "restart": c.get("restart"),
                 "same_request_sent_n_times(last one observed)": c.get("repeat"),
+                "recvmsg_ancillary_data_for_this_datagram": c.get("anc_mode"), "falsy_context_objects": bool(c.get("falsy_ctx")),
                 "handlers(tag,accepts,result)": c["handlers"]}
 
     def renamed(self, c, **kw):
